@@ -147,12 +147,14 @@ func (dm *DMap) deleteKeys(ctx context.Context, keys ...string) (int, error) {
 		members[member] = append(members[member], key)
 	}
 
+	var count int
 	for member, distributedKeys := range members {
 		if member.CompareByName(dm.s.rt.This()) {
 			for _, key := range distributedKeys {
 				if err := dm.deleteKey(key); err != nil {
 					return 0, err
 				}
+				count++
 			}
 		} else {
 			cmd := protocol.NewDel(dm.name, distributedKeys...).Command(dm.s.ctx)
@@ -161,12 +163,15 @@ func (dm *DMap) deleteKeys(ctx context.Context, keys ...string) (int, error) {
 			if err != nil {
 				return 0, protocol.ConvertError(err)
 			}
-
-			return 0, protocol.ConvertError(cmd.Err())
+			if err = cmd.Err(); err != nil {
+				return 0, protocol.ConvertError(err)
+			}
+			// Keep going: the remaining keys may live on other members.
+			count += int(cmd.Val())
 		}
 	}
 
-	return len(keys), nil
+	return count, nil
 }
 
 // Delete deletes the value for the given key. Delete will not return error if key doesn't exist. It's thread-safe.
